@@ -115,7 +115,7 @@ func c02Offsets(c *Ctx) {
 		{Fn: wr, Sink: "field:format.ColumnMetaData.DictionaryPageOffset", Allowed: []string{off}},
 		{Fn: wr, Sink: "field:format.ColumnMetaData.DataPageOffset", Allowed: []string{off}},
 		{Fn: wr, Sink: "field:format.ColumnMetaData.BloomFilterOffset", Allowed: []string{off}},
-		{Fn: wr, Sink: "field:format.ColumnMetaData.BloomFilterLength", Through: true, Allowed: []string{off, "field:copiedChunk.bloomLength"}},
+		{Fn: wr, Sink: "field:format.ColumnMetaData.BloomFilterLength", Through: true, Allowed: []string{off, "field:copiedChunk.*"}},
 		{Fn: wr, Sink: "field:format.PageLocation.Offset", Through: true, Allowed: []string{off, "field:format.PageLocation.Offset"}, Require: []string{off}},
 		{Fn: wr, Sink: "field:format.RowGroup.FileOffset", Allowed: []string{off}},
 		{Fn: "(*writer).writeDeferredBloomFilters", Sink: "field:format.ColumnMetaData.BloomFilterOffset", Allowed: []string{off}},
@@ -296,57 +296,68 @@ func c02Deferred(c *Ctx) {
 	}
 	fn := p.SSAFunc(obj)
 	n := 0
-	allInstrs(fn, false, func(_ *ssa.Function, ins ssa.Instruction) {
-		st, ok := ins.(*ssa.Store)
-		if !ok {
-			return
+	// the deferral sites: writeRowGroup and the unexported functions of the
+	// package it hands part of the job to
+	var scope []*ssa.Function
+	for _, g := range p.ModuleSSAFuncs() {
+		if g.Origin() == nil && g.Blocks != nil && fnPkgPath(g) == modPath {
+			scope = append(scope, g)
 		}
-		fs, _, elem := fieldChain(st.Addr)
-		if len(fs) == 0 || elem || fs[len(fs)-1] != bufField {
-			return
-		}
-		n++
-		// a Seek(0, io.SeekStart) on the same value dominates the store
-		rewound := false
-		var names []string
-		var vals []ssa.Value
-		for _, src := range sourcesOf(st.Val) {
-			vals = append(vals, src)
-			// the buffer variable may live in a cell (captured by the
-			// release closure): every load of the cell denotes the buffer
-			if cell, isCell := src.(*ssa.Alloc); isCell {
-				for _, r := range *cell.Referrers() {
-					if u, ok := r.(*ssa.UnOp); ok && u.Op == token.MUL {
-						vals = append(vals, u)
+	}
+	for _, g := range scope {
+		allInstrs(g, false, func(_ *ssa.Function, ins ssa.Instruction) {
+			st, ok := ins.(*ssa.Store)
+			if !ok {
+				return
+			}
+			fs, root, elem := fieldChain(st.Addr)
+			if len(fs) == 0 || elem || fs[len(fs)-1] != bufField {
+				return
+			}
+			_ = root
+			n++
+			// a Seek(0, io.SeekStart) on the same value dominates the store
+			rewound := false
+			var names []string
+			var vals []ssa.Value
+			for _, src := range sourcesOf(st.Val) {
+				vals = append(vals, src)
+				// the buffer variable may live in a cell (captured by the
+				// release closure): every load of the cell denotes the buffer
+				if cell, isCell := src.(*ssa.Alloc); isCell {
+					for _, r := range *cell.Referrers() {
+						if u, ok := r.(*ssa.UnOp); ok && u.Op == token.MUL {
+							vals = append(vals, u)
+						}
 					}
 				}
 			}
-		}
-		for _, src := range vals {
-			refs := src.Referrers()
-			if refs == nil {
-				continue
-			}
-			for _, r := range *refs {
-				call, isCall := r.(ssa.CallInstruction)
-				if !isCall {
+			for _, src := range vals {
+				refs := src.Referrers()
+				if refs == nil {
 					continue
 				}
-				cc := call.Common()
-				if !cc.IsInvoke() || cc.Method.Name() != "Seek" || len(cc.Args) != 2 {
-					continue
-				}
-				names = append(names, "Seek")
-				o, ok1 := cc.Args[0].(*ssa.Const)
-				w, ok2 := cc.Args[1].(*ssa.Const)
-				if ok1 && ok2 && o.Int64() == 0 && w.Int64() == 0 && dominates(call.(ssa.Instruction), st) {
-					rewound = true
+				for _, r := range *refs {
+					call, isCall := r.(ssa.CallInstruction)
+					if !isCall {
+						continue
+					}
+					cc := call.Common()
+					if !cc.IsInvoke() || cc.Method.Name() != "Seek" || len(cc.Args) != 2 {
+						continue
+					}
+					names = append(names, "Seek")
+					o, ok1 := cc.Args[0].(*ssa.Const)
+					w, ok2 := cc.Args[1].(*ssa.Const)
+					if ok1 && ok2 && o.Int64() == 0 && w.Int64() == 0 && dominates(call.(ssa.Instruction), st) {
+						rewound = true
+					}
 				}
 			}
-		}
-		sort.Strings(names)
-		c.Check(rule, "writeRowGroup: deferred bloom filter buffer #"+itoa(n-1)+" rewound before it is queued", st.Pos(), rewound, "a buffer holding a deferred bloom filter is queued without Seek(0, io.SeekStart): Close copies from the current position (the end), writes zero filter bytes and records a length of 0 at an offset that holds other data")
-	})
+			sort.Strings(names)
+			c.Check(rule, "writeRowGroup: deferred bloom filter buffer #"+itoa(n-1)+" rewound before it is queued", st.Pos(), rewound, "a buffer holding a deferred bloom filter is queued without Seek(0, io.SeekStart): Close copies from the current position (the end), writes zero filter bytes and records a length of 0 at an offset that holds other data")
+		})
+	}
 	c.Check(rule, "writeRowGroup queues deferred bloom filters", fn.Pos(), n >= 2, "expected the two deferral sites (encoded and copied chunks)")
 	c.Min(rule, 3)
 }
